@@ -38,6 +38,7 @@ PREV = os.environ.get("RS2LEAN6A_PREV", OUT)
 
 P = "src/jsonpath/path.rs"
 S = "src/jsonpath/selector.rs"
+F = "src/functions.rs"
 NUM = "src/number.rs"
 
 # the output, in order: ("enum" | "struct", file, name), ("typegroup", file, ((kind, name), ..)),
@@ -80,7 +81,18 @@ ITEMS6A = [
     ("fn", S, "Selector", None, "select", "Selector.select", None),
     ("fn", S, "Selector", None, "exists", "Selector.exists", None),
     ("fn", S, "Selector", None, "predicate_match", "Selector.predicate_match", None),
+    ("fn", F, None, None, "path_exists", "path_exists", None),
+    ("fn", F, None, None, "path_match", "path_match", None),
+    ("fn", F, None, None, "get_by_path", "get_by_path", None),
+    ("fn", F, None, None, "get_by_path_first", "get_by_path_first", None),
+    ("fn", F, None, None, "get_by_path_array", "get_by_path_array", None),
 ]
+
+# public functions of functions.rs of the shape `.. if !is_jsonb(value) { <text branch> } else { <jsonb branch> } ..`: the text
+# branch calls the JSON text parser (and the selector on the re-encoded document) and is kept as a parameter `text__`
+# holding its outcome: the function's result when the `if` is the tail expression, the final values of the `&mut`
+# parameters (or the error the branch leaves with) when it is a statement
+TEXT_IFELSE6 = {"path_exists", "path_match", "get_by_path", "get_by_path_first", "get_by_path_array"}
 
 # where a type implements a trait more than once: the item whose signature text matches this pattern
 SELECT = {(NUM, "Number", "partial_cmp"): r"other : & Self\b"}
@@ -655,6 +667,11 @@ class FnTr6(FnTr5b):
                             raise Unsupported("binding inside matches!")
                         pats.append(p1)
                     return ls, "(match %s with | %s => true | _ => false)" % (t, " | ".join(pats)), ("bool",)
+        if k == "text_effect":
+            # the text branch in statement position: the final values of the `&mut` parameters, or its error
+            names = [lname(m) for m in self.mutparams]
+            pat = names[0] if len(names) == 1 else "(" + ", ".join(names) + ")"
+            return ["let %s ← Ctl.ofRes text__" % pat], "()", ("unit",)
         if k == "skipped":
             ls, t, ty = self.ex(e.e)
             if ty is None or ty[0] not in ("vec", "slice", "deque", "array") or is_bytes(ty):
@@ -805,10 +822,80 @@ class FnTr6(FnTr5b):
         return FnTr4.split_text_branch(self, body)
 
     def translate0(self):
+        if self.name in TEXT_IFELSE6 and self.impl is None:
+            return self.translate_ifelse()
         return FnTr4.translate0(self)
 
     def tail(self, e):
+        if e is not None and e.kind == "path" and e.segs == ["text__"] and getattr(self, "ifelse_text", False):
+            return ["Ctl.ret text__"]
         return FnTr4.tail(self, e)
+
+    # -- `if !is_jsonb(value) { <text branch> } else { <jsonb branch> }` (TEXT_IFELSE6)
+    def split_ifelse(self, body):
+        """the text branch of the one sniffing `if .. else ..` becomes a use of the parameter `text__`"""
+        hits = []
+
+        def is_target(e):
+            return e is not None and e.kind == "if" and e.els is not None and e.els.kind == "block" and self.is_plain_sniff6(e.cond)
+        for i, s0 in enumerate(body.stmts):
+            if s0.kind == "expr" and is_target(s0.e):
+                hits.append(("stmt", i))
+        if is_target(body.tail):
+            hits.append(("tail", None))
+        if len(hits) != 1:
+            raise Unsupported("expected one `if !is_jsonb(<parameter>) { <text branch> } else { <jsonb branch> }`")
+        kind, i = hits[0]
+        if kind == "tail":
+            e = body.tail
+            if self.mutparams:
+                raise Unsupported("a text branch in tail position of a function with `&mut` parameters")
+            then = N("block", stmts=[], tail=N("path", segs=["text__"]))
+            return N("block", stmts=body.stmts, tail=N("if", cond=e.cond, then=then, els=e.els))
+        e = body.stmts[i].e
+        if self.ret_value_type() != ("unit",) or not self.mutparams or self.ret[0] != "res":
+            raise Unsupported("a text branch in statement position: only in a `Result<(), _>` function with `&mut` parameters")
+        then = N("block", stmts=[N("expr", e=N("text_effect"), semi=True)], tail=None)
+        s1 = N("expr", e=N("if", cond=e.cond, then=then, els=e.els), semi=False)
+        return N("block", stmts=body.stmts[:i] + [s1] + body.stmts[i + 1:], tail=body.tail)
+
+    def is_plain_sniff6(self, c):
+        """`!is_jsonb(p)` for a parameter `p` of this function that is not `&mut`"""
+        while c.kind == "paren":
+            c = c.e
+        if not (c.kind == "un" and c.op == "!" and c.e.kind == "call" and c.e.f.kind == "path"
+                and c.e.f.segs == ["is_jsonb"] and len(c.e.args) == 1):
+            return False
+        a = strip(c.e.args[0])
+        return a.kind == "path" and len(a.segs) == 1 and a.segs[0] in [n for n, _ in self.params] \
+            and a.segs[0] not in self.mutparams
+
+    def translate_ifelse(self):
+        p = self.body_parser
+        body = p.parse_block()
+        if p.peek().k != "eof":
+            raise Unsupported("tokens after the function body")
+        body = self.split_ifelse(body)
+        self.ifelse_text = True
+        self.scopes = []
+        self.push()
+        binders = []
+        for n, t in self.params:
+            self.bind(n, t)
+            binders.append("(%s : %s)" % (lname(n), self.lt(t)))
+        if self.ret[0] != "res":
+            raise Unsupported("text branch in a function that does not return Result")
+        self.scopes[-1]["text__"] = self.ret
+        self.text_param = "text__"
+        binders.append("(text__ : Res %s)" % self.lean_ret())
+        lines, _, _, _ = self.tr_block(body, "tail", None)
+        out = []
+        for a in self.aux_defs:
+            out += a + [""]
+        if self.uses_fuel:
+            binders = ["(fuel : Nat)"] + binders
+        head = "def %s %s: Res %s := Ctl.run do" % (self.lean, "".join(x + " " for x in binders), self.lean_ret())
+        return out, [head] + ind(lines)
 
     # -- `for x in v.iter().skip(n)`
     def tr_loop(self, e):
@@ -879,6 +966,9 @@ class FnTr6(FnTr5b):
             if k == "mcall" and x.name == "append":
                 for a in x.args:
                     hit(self.mutated_root(a), declared)
+            if k == "text_effect":
+                for m in self.mutparams:
+                    hit(m, declared)
             if k == "match":
                 walk(x.scrut, declared)
                 for a in x.arms:
